@@ -6,6 +6,7 @@ import (
 	"fmt"
 	"io"
 	"net"
+	"sync"
 	"time"
 
 	"github.com/insomniacslk/dhcp/dhcpv4/nclient4"
@@ -41,6 +42,79 @@ func (c *scriptConn) LocalAddr() net.Addr                { return &net.UDPAddr{}
 func (c *scriptConn) SetDeadline(t time.Time) error      { return nil }
 func (c *scriptConn) SetReadDeadline(t time.Time) error  { return nil }
 func (c *scriptConn) SetWriteDeadline(t time.Time) error { return nil }
+
+// slowConn takes the octets of its first write only when released.
+type slowConn struct {
+	scriptConn
+	mu      sync.Mutex
+	n       int
+	entered chan struct{}
+	release chan struct{}
+	first   []byte
+	second  []byte
+}
+
+func (c *slowConn) WriteTo(p []byte, addr net.Addr) (int, error) {
+	c.mu.Lock()
+	c.n++
+	k := c.n
+	c.mu.Unlock()
+	if k == 1 {
+		close(c.entered)
+		<-c.release
+		c.first = append([]byte{}, p...)
+	} else {
+		c.mu.Lock()
+		c.second = append([]byte{}, p...)
+		c.mu.Unlock()
+	}
+	return len(p), nil
+}
+
+func overlappedWrites(pa, pb, da []byte, dpa int, db []byte, dpb int, sip []byte, sport int) (fa, fb []byte, err error) {
+	sc := &slowConn{entered: make(chan struct{}), release: make(chan struct{})}
+	conn := nclient4.NewBroadcastUDPConn(sc, &net.UDPAddr{IP: ipArg(sip), Port: sport})
+	done := make(chan error, 1)
+	go func() {
+		_, e := conn.WriteTo(pa, &net.UDPAddr{IP: ipArg(da), Port: dpa})
+		done <- e
+	}()
+	select {
+	case <-sc.entered:
+	case e := <-done:
+		return nil, nil, fmt.Errorf("first write ended without reaching the socket: %v", e)
+	case <-time.After(10 * time.Second):
+		return nil, nil, fmt.Errorf("first write did not reach the socket")
+	}
+	second := make(chan error, 1)
+	go func() {
+		_, e := conn.WriteTo(pb, &net.UDPAddr{IP: ipArg(db), Port: dpb})
+		second <- e
+	}()
+	secondDone := false
+	select {
+	case e := <-second:
+		secondDone = true
+		if e != nil {
+			close(sc.release)
+			return nil, nil, e
+		}
+	case <-time.After(2 * time.Second):
+		// a connection that serialises its writes: the second waits for the first, which is fine
+	}
+	close(sc.release)
+	if e := <-done; e != nil {
+		return nil, nil, e
+	}
+	if !secondDone {
+		if e := <-second; e != nil {
+			return nil, nil, e
+		}
+	}
+	sc.mu.Lock()
+	defer sc.mu.Unlock()
+	return sc.first, sc.second, nil
+}
 
 func rawWrite(payload, dip []byte, dport int, sip []byte, sport int) ([]byte, error) {
 	sc := &scriptConn{}
@@ -259,6 +333,36 @@ func genC18(r *Run) {
 			if pl, src, sp, ok := wellFormedFor(f, dip, dport, 2000); !ok || !bytes.Equal(pl, p) || !bytes.Equal(src, sip) || sp != sport {
 				r.Fail("write-read", trunc(cs, 400), "a written frame is not well-formed for its own destination")
 			}
+		}
+	}
+	// writes that overlap in time on ONE connection (a net.PacketConn may be used by several goroutines at once, and
+	// the client writes from concurrent calls): the socket below takes the octets of the first write only when it is
+	// released, after a second write has been made meanwhile, as a socket with a full send queue does; each frame
+	// must still be the frame of its own datagram
+	for i := 0; i < r.N(40, 400); i++ {
+		pa, pb := r.Bytes(1+r.Rng.Intn(600)), r.Bytes(1+r.Rng.Intn(600))
+		switch i % 4 {
+		case 0:
+			pb = r.Bytes(len(pa))
+		case 1:
+			pb = r.Bytes(len(pa) + 1 + r.Rng.Intn(300))
+		}
+		sip, da, db := r.Bytes(4), r.Bytes(4), r.Bytes(4)
+		sport, dpa, dpb := 68, 67, 1+r.Rng.Intn(65535)
+		fa, fb, err := overlappedWrites(pa, pb, da, dpa, db, dpb, sip, sport)
+		evals++
+		cs := fmt.Sprintf("first %s to %s:%d, second %s to %s:%d", trunc(hx(pa), 100), hx(da), dpa, trunc(hx(pb), 100), hx(db), dpb)
+		if err != nil {
+			r.Fail("overlapping-writes", cs, err.Error())
+			break
+		}
+		if bad := validateFrame(fa, pa, sip, da, sport, dpa); bad != "" {
+			r.Fail("overlapping-writes", cs, "the frame of a write that was still in the socket when another write was made is not the frame of its datagram: "+bad)
+			break
+		}
+		if bad := validateFrame(fb, pb, sip, db, sport, dpb); bad != "" {
+			r.Fail("overlapping-writes", cs, "the frame of a write made while an earlier one was still in the socket is not the frame of its datagram: "+bad)
+			break
 		}
 	}
 	// 16-octet / nil addresses (outside the claim; the model must agree)
